@@ -52,6 +52,16 @@ theorem link_iff_object (N : Nat) (directed : Bool) (S0 damp : Sim) (nl : Bool) 
 example : (mkThreshold 2 false (fun i j => if i = j then 0 else -3/4) (fun _ _ => 1) false
     (1/2)).A = [false, true, true, false] := by decide +kernel
 
+/-- **cross-layer links of a coupled network** (`CoupledClimateNetwork.cross_layer_adjacency`, the
+block `[:N₁, N₁:]` of the adjacency): node `i` of layer 1 and node `j` of layer 2 are linked
+exactly when their (weighted) cross similarity exceeds the threshold — the zeroed diagonal never
+touches the cross block -/
+theorem cross_link_iff (W : Sim) (θ : Rat) (N1 N2 i j : Nat) (hi : i < N1) (hj : j < N2) :
+    (thresholdAdjacency W θ (N1 + N2))[i * (N1 + N2) + (N1 + j)]? = some true ↔
+      θ < W i (N1 + j) := by
+  rw [link_iff W θ (N1 + N2) i (N1 + j) (by omega) (by omega)]
+  exact ⟨fun h => h.2, fun h => ⟨by omega, h⟩⟩
+
 /-! ## 2. raising the threshold only removes links -/
 
 /-- entry-wise: a link present at the higher threshold is present at the lower one -/
